@@ -157,6 +157,12 @@ def strata_frames(ctx, lengths=None):
     for L in (lengths or LENGTH_STRATA):
         pl = bytes(rng.getrandbits(8) for _ in range(L))
         out.append((0, b"\x77", b"\x05", pl))
+        if L >= 256 and L % 256 == 0:
+            # payloads that add nothing to the Fletcher sums (all zero; 80 00 80 00 …): a frame whose length field is
+            # misread as shorter still passes a checksum taken over the shorter span
+            out.append((0, b"\x77", b"\x01", bytes(L)))
+            out.append((0, b"\x02", b"\x84", bytes(L)))
+            out.append((0, b"\x77", b"\x01", b"\x80\x00\x80\x00" + bytes(L - 4)))
         out.append((0, b"\x04", b"\x02", bytes(rng.choice(b"abc xyz") for _ in range(L))))
         out.append((rng.choice([1, 2]), b"\x06", b"\x01", pl))                 # CFG-MSG with a payload of the wrong size
         if L >= 40 and (L - 40) % 30 == 0:
